@@ -69,16 +69,12 @@ func c09(r *Report) {
 	})
 
 	r.Guard("C09.R2", "a frame is emitted only when it fits both windows, and both windows are then reduced by its flow-controlled size", func() {
-		var send *ssa.Send
-		for _, in := range instrs(emit) {
-			if s, ok := in.(*ssa.Send); ok {
-				send = s
-			}
-		}
-		if send == nil {
-			r.Undecided("(*M/h2.outputBuffer).emitEligibleFrames: send", "UNRESOLVED: no channel send")
+		sps := sendPoints(emit)
+		if len(sps) != 1 {
+			r.Undecided("(*M/h2.outputBuffer).emitEligibleFrames: send", fmt.Sprintf("UNRESOLVED: %d channel sends, want 1", len(sps)))
 			return
 		}
+		send := sps[0].Instr
 		g := G(emit)
 		// the two window comparisons
 		isFCS := func(v ssa.Value) bool {
@@ -122,7 +118,7 @@ func c09(r *Report) {
 						notFit = e.False
 					}
 					// the does-not-fit edge cannot reach the send in this iteration; the comparison is on every path to the send
-					if g.PathTo(blockStart(notFit), true, func(i ssa.Instruction) bool { return i == ssa.Instruction(b) }, func(i ssa.Instruction) bool { return i == ssa.Instruction(send) }) == nil && g.Before(b, send) {
+					if g.PathTo(blockStart(notFit), true, func(i ssa.Instruction) bool { return i == ssa.Instruction(b) }, func(i ssa.Instruction) bool { return i == send }) == nil && g.Before(b, send) {
 						ok = true
 					}
 				}
@@ -149,7 +145,7 @@ func c09(r *Report) {
 				b, ok := st.Val.(*ssa.BinOp)
 				return ok && b.Op == token.SUB && isFCS(b.Y)
 			}
-			p := g.PathTo([]ssa.Instruction{send}, false, isDec, func(i ssa.Instruction) bool { return isExit(i) || i == ssa.Instruction(send) })
+			p := g.PathTo(sps[0].After, sps[0].Incl, isDec, func(i ssa.Instruction) bool { return isExit(i) || i == send })
 			r.Paths++
 			r.Decide("path", "(*M/h2.outputBuffer).emitEligibleFrames: "+dec.name+" reduced after every emission", p == nil, "every path from the send to the next iteration/exit subtracts flowControlSize()", "an emitted frame is not accounted against the "+dec.name, send.Pos())
 		}
